@@ -747,6 +747,7 @@ qb_loop_signal_del(qb_loop_t * lp, qb_loop_signal_handle handle)
 	struct qb_loop_sig *sig_clone;
 	struct qb_loop *l = lp;
 	struct qb_loop_item *item;
+	struct qb_loop_item *next_item;
 
 	if (l == NULL) {
 		l = qb_loop_default_get();
@@ -769,7 +770,12 @@ qb_loop_signal_del(qb_loop_t * lp, qb_loop_signal_handle handle)
 		}
 	}
 
-	qb_list_for_each_entry(item, &l->level[sig->p].job_head, list) {
+	/*
+	 * Several deliveries of the signal can be queued at once,
+	 * and none of them must run (or look at sig) after this.
+	 */
+	qb_list_for_each_entry_safe(item, next_item,
+				    &l->level[sig->p].job_head, list) {
 		if (item->type != QB_LOOP_SIG) {
 			continue;
 		}
@@ -777,7 +783,7 @@ qb_loop_signal_del(qb_loop_t * lp, qb_loop_signal_handle handle)
 		if (sig_clone->cloned_from == sig) {
 			qb_loop_level_item_del(&l->level[sig->p], item);
 			qb_util_log(LOG_TRACE, "deleting sig in JOBLIST");
-			break;
+			free(sig_clone);
 		}
 	}
 
